@@ -17,8 +17,10 @@
 
 #include <unifex/manual_lifetime.hpp>
 #include <unifex/receiver_concepts.hpp>
+#include <unifex/get_stop_token.hpp>
 #include <unifex/scheduler_concepts.hpp>
 #include <unifex/type_traits.hpp>
+#include <unifex/unstoppable_token.hpp>
 
 #include <unifex/detail/prologue.hpp>
 
@@ -26,8 +28,10 @@ namespace unifex {
 
 // When started with start(outer), will call outer.forward_set_value() on the
 // execution context obtained by scheduling on
-// get_scheduler(outer.get_receiver()). If schedule() fails or is cancelled,
-// will forward set_error()/set_done() to outer.get_receiver().
+// get_scheduler(outer.get_receiver()). The schedule operation is connected
+// with an unstoppable token (the outer operation has already committed to its
+// result); should it nevertheless fail or complete with done, set_error() /
+// set_done() is forwarded to outer.get_receiver().
 // outer.get_receiver() must return FinalReceiver&.
 // outer.forward_set_value must not throw.
 template <typename OpState, typename FinalReceiver>
@@ -67,6 +71,14 @@ private:
 
     void set_done() noexcept {
       unifex::set_done(std::move(outer_.get_receiver()));
+    }
+
+    // By the time the hop is scheduled the outer operation has already
+    // decided how it completes (it may own a lock or have handed over a
+    // value), so a stop request must not turn the hop itself into set_done.
+    friend unstoppable_token
+    tag_invoke(tag_t<get_stop_token>, const receiver&) noexcept {
+      return {};
     }
 
     template(typename CPO)                       //
